@@ -10,6 +10,7 @@
 #include <string>
 #include <unordered_map>
 #include <functional>
+#include <mutex>
 #include <sys/mman.h>
 
 extern "C" int m_set_memhook(void *(*_malloc)(size_t), void *(*_calloc)(size_t, size_t), void (*_free)(void *));
@@ -32,8 +33,11 @@ struct State {
 };
 
 inline State &st() { static State s; return s; }
+// the library calls the memhook from its task pool threads as well (a finished task's record is released by the worker): one lock for the table
+inline std::recursive_mutex &mtx() { static std::recursive_mutex m; return m; }
 
 inline void *raw_alloc(size_t sz, bool zero) {
+    std::lock_guard<std::recursive_mutex> lk(mtx());
     State &s = st();
     if (s.fail_at >= 0 && (long)s.n_alloc == s.fail_at) { s.n_alloc++; return nullptr; }
     void *p;
@@ -59,6 +63,7 @@ inline void *t_malloc(size_t sz) { return raw_alloc(sz, false); }
 inline void *t_calloc(size_t n, size_t sz) { return raw_alloc(n * sz, true); }
 inline void t_free(void *p) {
     if (!p) return;
+    std::lock_guard<std::recursive_mutex> lk(mtx());
     State &s = st();
     auto it = s.live.find(p);
     if (it == s.live.end()) {
